@@ -30,7 +30,10 @@ pub(crate) fn scan_dimen<S: TexlangState>(
             // TeX.2021.449
             use super::integer::InternalNumber;
             match super::integer::parse_internal_number(input, first_token, command_ref)? {
-                InternalNumber::Integer(i) => (negative * i.signum(), i.abs(), Scaled::ZERO),
+                // The magnitude of -2^31 is not an i32; but any dimension that big is too large anyway.
+                InternalNumber::Integer(i) => {
+                    (negative * i.signum(), i.saturating_abs(), Scaled::ZERO)
+                }
                 InternalNumber::Dimen(d) => {
                     return attach_sign(input, first_token, d, negative);
                 }
